@@ -74,7 +74,10 @@ def run(pid, tier, seed, jobs=None, only=None):
         return R.run_check(pid, tier, seed, specs, opts={'extra': 'then_exit'}, jobs=jobs)
     if pid == 'C11':
         specs = [s for s in specs_c11(tier) if not only or s['kind'] in only]
-        return R.run_check(pid, tier, seed, specs, jobs=jobs)
+        rc = R.run_check(pid, tier, seed, specs, jobs=jobs)
+        if tier == 'thorough' and not only:
+            rc = kani_second_opinion(pid, rc, harness='update_remaining_amounts_only_accumulates', bounds='one symbolic Action (any kind, optional fee), u64-range operands, unwinding assertions on')
+        return rc
     from . import entry as EN
     if pid == 'C13':
         return R.run_check(pid, tier, seed, EN.specs_instantiate(tier), opts={'builder': 'build_instantiate', 'runner': 'run_instantiate', 'extra': 'integrality'}, jobs=jobs)
@@ -91,13 +94,13 @@ def run(pid, tier, seed, jobs=None, only=None):
     return 2
 
 
-def kani_second_opinion(pid, rc):
+def kani_second_opinion(pid, rc, harness='conversion_sums_match_event_log', bounds='event log <= 2 events, unwind 4 with unwinding assertions, u64 amounts'):
     """thorough tier of C15: Kani/CBMC on the COMPILED conversion `BidOrderV3::from(BidOrderV2)` (<= 2 symbolic events, u64 amounts, unwinding assertions on)"""
     import subprocess, time, re
     t0 = time.time()
     env = dict(os.environ, CARGO_NET_OFFLINE='true', CARGO_TARGET_DIR='/verif/.cache/kani-target')
     try:
-        p = subprocess.run(['cargo', 'kani', '--harness', 'conversion_sums_match_event_log'], cwd=os.path.join(os.path.dirname(os.path.dirname(os.path.abspath(__file__))), 'kani'), env=env, capture_output=True, text=True, timeout=3000)
+        p = subprocess.run(['cargo', 'kani', '--harness', harness], cwd=os.path.join(os.path.dirname(os.path.dirname(os.path.abspath(__file__))), 'kani'), env=env, capture_output=True, text=True, timeout=3000)
         out = p.stdout + p.stderr
     except Exception as e:
         out = 'kani did not run: %r' % (e,)
@@ -105,7 +108,7 @@ def kani_second_opinion(pid, rc):
     m = re.search(r'\*\* (\d+) of (\d+) failed', out)
     fn = os.path.join(R.VERIF, 'evidence', pid + '.json')
     ev = json.load(open(fn))
-    ev['coverage']['kani_leaf_harness'] = {'harness': 'ats-kani::conversion_sums_match_event_log', 'bounds': 'event log <= 2 events, unwind 4 with unwinding assertions, u64 amounts', 'verdict': 'SUCCESSFUL' if ok_ else 'NOT SUCCESSFUL',
+    ev['coverage']['kani_leaf_harness'] = {'harness': 'ats-kani::' + harness, 'bounds': bounds, 'verdict': 'SUCCESSFUL' if ok_ else 'NOT SUCCESSFUL',
                                            'checks_failed_of_total': m.groups() if m else None, 'cover_witness_satisfied': '1 of 1 cover properties satisfied' in out, 'wall_s': round(time.time() - t0, 1)}
     ev['wall_s'] = round(ev['wall_s'] + time.time() - t0, 2)
     if not ok_:
